@@ -69,4 +69,78 @@ example : decompress 2 (compress 2 [18, 18, 18, 3, 6, 15, 0, 3]) 8 = some [18, 1
 /-- the model's compressed bytes for the anchor input are the bytes the real library stores -/
 example : compress 2 [18, 18, 18, 3, 6, 15, 0, 3] = [137, 68, 189, 135, 140, 157, 6] := by decide +kernel
 
+/-! ## codes longer than one / two words of the encoder's bit stack (33 .. 256 bits)
+
+    `HCIcskphuff_encode` collects the bits of one code leaf-to-ROOT in 32-bit words (`output_bits[0]` = the 32 bits nearest the
+    leaf) and pops them top word first.  The model's stack is a list, so nothing in it depends on the number of words; the
+    statements below are for every tree and every code length. -/
+
+/-- for EVERY tree and symbol (any depth: 1, 2, 3, ... 8 stack words): the `Hbitwrite(count, data)` calls of one code are at most
+    one partly filled word (the top of the stack) followed by full 32-bit words only; written in that order they are exactly the
+    ROOT-to-leaf path `encSym`; their counts add up to the path length; and a code of `n` bits takes `⌈n/32⌉` calls. -/
+theorem skphuff_code_any_length (t : Tree) (s : Nat) :
+    (∃ top full : List (Nat × Nat), encFields t s = top ++ full ∧ top.length ≤ 1 ∧
+        (∀ f ∈ top, 1 ≤ f.1 ∧ f.1 < 32) ∧ (∀ f ∈ full, f.1 = 32)) ∧
+    H4.Bits.fieldsBits (encFields t s) = encSym t s ∧
+    codeBits t s = (encSym t s).length ∧
+    codeWords t s = (codeBits t s + 31) / 32 :=
+  ⟨encFields_shape t s, fieldsBits_encFields t s, codeBits_eq t s, codeWords_eq t s⟩
+
+/-- a well-formed tree of (nearly) the greatest possible depth, to instantiate the statements in the deep region: a caterpillar
+    `0 → 1 → 2 → ... → 255`; inner node `j` (1..254) carries the leaf of symbol `j-1` and inner node `j+1`, the leaf on the left
+    unless `3 ∣ j`; node 255 carries the leaves of 254 and 255.  The code of symbol `s ≤ 253` has `s + 2` bits. -/
+def deepTree : Tree where
+  left := ((List.range 256).map fun j =>
+    if j = 0 then 0 else if j = 255 then 510 else if j % 3 = 0 then j + 1 else 255 + j).toArray
+  right := ((List.range 256).map fun j =>
+    if j = 0 then 1 else if j = 255 then 511 else if j % 3 = 0 then 255 + j else j + 1).toArray
+  up := ((List.range 513).map fun x =>
+    if x = 0 then 0 else if x < 256 then x - 1 else if x = 512 then 0 else if x = 511 then 255 else x - 255).toArray
+
+theorem deepTree_WF : WF deepTree := by
+  have hl : ∀ j, j < 256 → rd deepTree.left j =
+      if j = 0 then 0 else if j = 255 then 510 else if j % 3 = 0 then j + 1 else 255 + j := by
+    intro j hj; simp [deepTree, rd_ofFn, hj]
+  have hr : ∀ j, j < 256 → rd deepTree.right j =
+      if j = 0 then 1 else if j = 255 then 511 else if j % 3 = 0 then 255 + j else j + 1 := by
+    intro j hj; simp [deepTree, rd_ofFn, hj]
+  have hu : ∀ x, x < 513 → rd deepTree.up x =
+      if x = 0 then 0 else if x < 256 then x - 1 else if x = 512 then 0 else if x = 511 then 255 else x - 255 := by
+    intro x hx; simp [deepTree, rd_ofFn, hx]
+  have hub : ∀ x, x < 512 → rd deepTree.up x < 256 := by
+    intro x hx; rw [hu x (by omega)]; split <;> (try split) <;> (try split) <;> (try split) <;> omega
+  refine ⟨by simp [deepTree], by simp [deepTree], by simp [deepTree], ?_⟩
+  constructor
+  · exact hub
+  · intro x hx
+    rw [hl _ (hub x hx), hr _ (hub x hx), hu x (by omega)]
+    grind
+  · intro j hj; rw [hl j hj]; grind
+  · intro j hj; rw [hr j hj]; grind
+  · intro j hj; rw [hl j hj]; rw [hu _ (by grind)]; grind
+  · intro j hj; rw [hr j hj]; rw [hu _ (by grind)]; grind
+  · intro j hj; rw [hl j hj, hr j hj]; grind
+  · refine ⟨id, ?_⟩
+    intro x hx hx0; rw [hu x (by omega)]; simp only [id]; grind
+
+/-- a 72-bit code (3 stack words) on `deepTree`: the calls are `Hbitwrite(8, word 2)`, `Hbitwrite(32, word 1)`,
+    `Hbitwrite(32, word 0)` - the partly filled TOP word first, then the full words in DESCENDING stack order (word 0 = the 32 bits
+    nearest the leaf: `...DA` = leaf 70 is a left child, its parent 71 a right child, 70 a left child, ...) -/
+example : encFields deepTree 70 = [(8, 0xED), (32, 0xB6DB6DB6), (32, 0xDB6DB6DA)] := by decide +kernel
+
+example : codeBits deepTree 70 = 72 ∧ codeWords deepTree 70 = 3 := by decide +kernel
+
+/-- the longest codes of `deepTree`: 255 bits = 31 + 7·32 (8 words) and 256 bits = 8 full words, the top word empty -/
+example : (encFields deepTree 253).map (·.1) = [31, 32, 32, 32, 32, 32, 32, 32] ∧
+    (encFields deepTree 255).map (·.1) = [32, 32, 32, 32, 32, 32, 32, 32] := by decide +kernel
+
+/-- the round-trip facts instantiated on codes of 72, 255 and 256 bits (hypotheses satisfied by `deepTree_WF`) -/
+example (rest : List Bool) : decSym deepTree (H4.Bits.fieldsBits (encFields deepTree 70) ++ rest) = some (70, rest) := by
+  rw [(skphuff_code_any_length deepTree 70).2.1]
+  exact (skphuff_symbol deepTree deepTree_WF 70 (by decide) rest).1
+
+example (rest : List Bool) : decSym deepTree (encSym deepTree 253 ++ rest) = some (253, rest) ∧
+    decSym deepTree (encSym deepTree 255 ++ rest) = some (255, rest) :=
+  ⟨(skphuff_symbol deepTree deepTree_WF 253 (by decide) rest).1, (skphuff_symbol deepTree deepTree_WF 255 (by decide) rest).1⟩
+
 end H4.Props.C05
